@@ -2,6 +2,9 @@ package rules
 
 import (
 	"go/types"
+	"strings"
+
+	"golang.org/x/tools/go/ssa"
 
 	"cadcheck/core"
 )
@@ -11,7 +14,9 @@ func init() { register("C21", c21) }
 func c21(r *core.Run) {
 	r.Explanation = "Decided clauses: (R1) no fallible or wrapping arithmetic in iteration and membership: the iterator (NewInclusiveRangeIterator, Next, validate) and InclusiveRangeContains with its helpers may compare values but may not call a checked/wrapping " +
 		"NumberValue operation (Plus, Minus, Mul, Negate) whose operands are not bounded by the range — every such call is an obligation; the two on the reviewed tree are genuine defects and are listed as known findings; " +
-		"(R2) construction: NewInclusiveRangeValueWithStep raises InclusiveRangeConstructionError for a zero step and for a sequence moving away from the end before createInclusiveRange, and the default-step constructor rejects a descending unsigned range."
+		"(R2) construction: NewInclusiveRangeValueWithStep raises InclusiveRangeConstructionError for a zero step and for a sequence moving away from the end before createInclusiveRange, and the default-step constructor rejects a descending unsigned range; " +
+		"(R3) the iterator takes its direction from the sign of the step, its bound from `end` and its first element from `start` (data-flow origins of the field initialisers); (R4) membership divides the offset from `start` by `step`; " +
+		"(R5) when the needle equals `end`, InclusiveRangeContains returns only after the remainder test."
 	r.NotDecided = "the yielded sequence and membership results themselves."
 	arith := map[string]bool{"Plus": true, "Minus": true, "Mul": true, "Negate": true, "SaturatingPlus": true, "SaturatingMinus": true}
 	fns := [][3]string{
@@ -68,4 +73,104 @@ func c21(r *core.Run) {
 		r.Check(kinds >= 2, "R2.construct", "interpreter.NewInclusiveRangeValueWithStep: InclusiveRangeConstructionError raised", fn.Pos(), "both rejections raise the construction error", "construction errors were removed")
 	}
 	r.Floor("R2.construct", 3)
+	c21Extra(r)
+}
+
+func c21Extra(r *core.Run) {
+	// R3 the iterator's fields come from the fields of the range they are named after: direction from the sign of the step,
+	// bound from the end, first element from the start
+	fieldConst := func(v ssa.Value) map[string]bool {
+		out := map[string]bool{}
+		for _, tok := range strings.Fields(strings.Trim(core.OriginLeaves(v), "{}")) {
+			if strings.HasPrefix(tok, `const:"`) {
+				out[strings.Trim(strings.TrimPrefix(tok, "const:"), `"`)] = true
+			}
+		}
+		return out
+	}
+	only := func(m map[string]bool, want string) bool {
+		return m[want] && !(want != "start" && m["start"]) && !(want != "end" && m["end"]) && !(want != "step" && m["step"])
+	}
+	if fn := mustFn(r, "R3.fields", "interpreter", "", "NewInclusiveRangeIterator"); fn != nil {
+		want := map[string]string{"stepNegative": "step", "step": "step", "end": "end"}
+		seen := map[string]bool{}
+		core.Instrs(fn, false, func(in ssa.Instruction) {
+			st, ok := in.(*ssa.Store)
+			if !ok {
+				return
+			}
+			fa, ok := st.Addr.(*ssa.FieldAddr)
+			if !ok {
+				return
+			}
+			tn, f := structFieldOf(fa)
+			src, tracked := want[f]
+			if tn != "InclusiveRangeIterator" || !tracked {
+				return
+			}
+			seen[f] = true
+			got := fieldConst(st.Val)
+			r.Check(only(got, src), "R3.fields", "interpreter.NewInclusiveRangeIterator: InclusiveRangeIterator."+f+" ← range."+src, in.Pos(), "derived from the `"+src+"` field of the range only",
+				"the iterator's "+f+" is not derived from the range's `"+src+"` field alone (reads "+strings.Join(sortedKeys(got), ",")+"): e.g. a direction taken from the order of start and end is wrong for a single-element range with a negative step")
+		})
+		for f := range want {
+			if !seen[f] {
+				r.Undecided("R3.fields", "interpreter.NewInclusiveRangeIterator: InclusiveRangeIterator."+f, "field initialisation not found")
+			}
+		}
+		// the first element is the validated start
+		for _, c := range core.Calls(fn, false) {
+			if o := core.Callee(c); o != nil && o.Name() == "validate" && len(c.Common().Args) >= 2 {
+				got := fieldConst(c.Common().Args[1])
+				r.Check(only(got, "start"), "R3.fields", "interpreter.NewInclusiveRangeIterator: first element ← range.start", posOf(c), "the first element is the range's start", "the first element handed to validate is not the range's `start` field")
+			}
+		}
+	}
+	r.Floor("R3.fields", 4)
+
+	// R4 membership: the offset whose remainder by the step decides membership is measured from the start of the sequence
+	if fn := mustFn(r, "R4.offset", "interpreter", "", "InclusiveRangeContains"); fn != nil {
+		n := 0
+		for _, c := range core.Calls(fn, false) {
+			if !c.Common().IsInvoke() || c.Common().Method.Name() != "Mod" || len(c.Common().Args) < 2 {
+				continue
+			}
+			n++
+			recv := fieldConst(c.Common().Value)
+			div := fieldConst(c.Common().Args[len(c.Common().Args)-1])
+			r.Check(recv["start"] && !recv["end"] && !recv["step"], "R4.offset", "interpreter.InclusiveRangeContains: offset measured from start", posOf(c), "the dividend derives from the needle and the range's `start` only",
+				"the offset tested for divisibility is not measured from the range's `start` alone (reads "+strings.Join(sortedKeys(recv), ",")+"): members of a descending range whose step does not land on `end` are misclassified")
+			r.Check(only(div, "step"), "R4.offset", "interpreter.InclusiveRangeContains: remainder by the step", posOf(c), "the divisor is the range's `step`", "the divisor of the membership test is not the range's `step` field")
+		}
+		if n == 0 {
+			r.Undecided("R4.offset", "interpreter.InclusiveRangeContains", "no remainder test found")
+		}
+		// R5 when the needle equals the end, every return passes the remainder test: `end` is a member only if the step lands on it
+		var endEq []*ssa.Call
+		for _, c := range core.Calls(fn, false) {
+			call, isCall := c.(*ssa.Call)
+			if !isCall || !c.Common().IsInvoke() || c.Common().Method.Name() != "Equal" {
+				continue
+			}
+			if recv := fieldConst(c.Common().Value); recv["end"] && !recv["start"] {
+				endEq = append(endEq, call)
+			}
+		}
+		isMod := func(in ssa.Instruction) bool {
+			c, ok := in.(ssa.CallInstruction)
+			return ok && c.Common().IsInvoke() && c.Common().Method.Name() == "Mod"
+		}
+		isRet := func(in ssa.Instruction) bool { _, ok := in.(*ssa.Return); return ok }
+		if len(endEq) == 0 {
+			// `end` is not special-cased at all: it is classified by the general test
+			r.OK("R5.members", "interpreter.InclusiveRangeContains: needle == end", fn.Pos(), "no special case for the end of the range")
+		}
+		for _, e := range endEq {
+			hit := core.ReachUnder(fn, []core.Assumption{{Var: core.BoolVar{Call: e}, Val: true}}, []*ssa.BasicBlock{e.Block()}, isMod, isRet)
+			r.Check(hit == nil, "R5.members", "interpreter.InclusiveRangeContains: needle == end", e.Pos(), "when the needle equals `end` every return passes the remainder test",
+				"when the needle equals `end` the function can return without the remainder test: `end` is reported as a member even when the step does not land on it (InclusiveRange(0, 10, step: 3).contains(10) is true, iteration yields 0, 3, 6, 9)")
+		}
+	}
+	r.Floor("R4.offset", 2)
+	r.Floor("R5.members", 1)
 }
